@@ -6,13 +6,15 @@ import aggrgen
 def run(ctx):
     ctx.prove("C03")
     q = ctx.tier == "quick"
-    aggrgen.run_k(ctx, 270 if q else 7800, 14 if q else 200, tag="c03q" if q else "c03t")
+    aggrgen.run_k(ctx, 278 if q else 7900, 6 if q else 100, tag="c03q" if q else "c03t")
     ctx.cov["rule"] = ("one case = a script of 1-2 statements over one generated dataset (2-3 identifiers so that non-grouped identifiers repeat, "
                        "0-3 measures of Integer/Number/String/Boolean where the operator admits them, 0-200 datapoints, nulls 0/25/60 %, all-null "
                        "groups) whose last statement is op(DS [group by|group except ids] [having c]) or DS[aggr n := op(comp)|count(), … "
                        "[group by|except ids] [having c]] for the ten aggregate operators; having = comparisons of sum/avg/min/max/median/"
-                       "count(comp)/count() with literals, optionally combined by and/or; a second stream generates the having shapes the "
-                       "engine rejects; distinct = (statements, data)")
+                       "count(comp)/count() with literals, optionally combined by and/or, over one-measure operands and (half of them) over "
+                       "operands with several measures / other components than the aggregated ones / no identifier left; malformed grouping "
+                       "names (same semantic error code expected); a second small stream generates the shape the engine is known to fail on "
+                       "(min/max over an operand without measures and no identifier left); distinct = (statements, data)")
     ctx.oblige("K: engine = run_ascript (Model/Aggr.v) on every generated case, or the disagreement is reported", True)
     ctx.trusted.append("DuckDB 1.5.5 executes the emitted SQL (observed only). Bounds of the correspondence: Numbers on a 1/4 grid in [-10,10], "
                        "Integers |x| <= 1000, <= 200 datapoints, ASCII strings; sum/min/max/count/median and avg are compared as exact rationals "
